@@ -46,24 +46,35 @@ def parseDigits : List Char → Bool → Option Nat → Option Nat
       | some d => parseDigits cs false (some (16 * acc.getD 0 + d))
       | none => none
 
+/-- optional sign -/
+def stripSign : List Char → Bool × List Char
+  | [] => (false, [])
+  | c :: r => if c = '+' then (false, r) else if c = '-' then (true, r) else (false, c :: r)
+
+/-- optional `0x` / `0X` prefix, after which one underscore is allowed -/
+def stripPrefix : List Char → List Char
+  | c0 :: c1 :: r =>
+    if c0 = '0' ∧ (c1 = 'x' ∨ c1 = 'X') then
+      (match r with
+       | u :: r' => if u = '_' then r' else u :: r'
+       | [] => [])
+    else c0 :: c1 :: r
+  | s => s
+
 /-- `int(s, 16)` on the characters of `s`; `none` = `ValueError` -/
 def parseHexChars (s : List Char) : Option Int :=
   let s := s.dropWhile isPySpace
   let s := (s.reverse.dropWhile isPySpace).reverse
-  let (neg, s) := match s with
-    | '+' :: r => (false, r)
-    | '-' :: r => (true, r)
-    | r => (false, r)
-  let s := match s with
-    | '0' :: 'x' :: r => (match r with | '_' :: r' => r' | _ => r)
-    | '0' :: 'X' :: r => (match r with | '_' :: r' => r' | _ => r)
-    | r => r
+  let (neg, s) := stripSign s
+  let s := stripPrefix s
   match s with
-  | '_' :: _ => none
-  | _ =>
-    match parseDigits s false none with
-    | some v => some (if neg then -(v : Int) else (v : Int))
-    | none => none
+  | [] => none
+  | c :: r =>
+    if c = '_' then none
+    else
+      match parseDigits (c :: r) false none with
+      | some v => some (if neg then -(v : Int) else (v : Int))
+      | none => none
 
 /-- `hex_to_u64(s)` -/
 def hexToU64 (s : String) : PyM Int :=
